@@ -383,7 +383,11 @@ def replay(path):
         body = json.load(f)
     prop = body['property']
     mod = load_check(prop)
-    out = run_one(mod, body['scenario'])
+    core.begin_run()        # same scratch path shape as in a check run (path lengths show up in byte counts)
+    try:
+        out = run_one(mod, body['scenario'])
+    finally:
+        core.end_run()
     if out.get('harness_error'):
         print('HARNESS-ERROR %s' % out['harness_error'])
         return 2
